@@ -6,6 +6,8 @@ import (
 	"fmt"
 	"go/token"
 	"go/types"
+	"path"
+	"path/filepath"
 	"reflect"
 	"strconv"
 	"strings"
@@ -147,7 +149,12 @@ func (e *Engine) native(name string, fn interface{}, sym ExternFn) {
 			}
 			return ex.interpretAnyway(caller, f, args)
 		}
-		out := rf.Call(in)
+		var out []reflect.Value
+		if rt.IsVariadic() {
+			out = rf.CallSlice(in)
+		} else {
+			out = rf.Call(in)
+		}
 		switch len(out) {
 		case 0:
 			return nil
@@ -437,20 +444,23 @@ func (ex *Exec) fmtOperand(flags string, verb byte, op Value) Value {
 		_, signed, _ := intWidth(itf.T)
 		switch verb {
 		case 'd', 'v':
-			return SymStr{ex.itoa(x, signed)}
+			return SymStr{T: ex.itoa(x, signed)}
 		case 'x', 'X':
-			return SymStr{ex.ufStr("hexint", x.Term())}
+			return SymStr{T: ex.ufStr("hexint", x.Term())}
 		}
-		return SymStr{ex.ufStr("fmtint_"+string(verb), x.Term())}
+		return SymStr{T: ex.ufStr("fmtint_"+string(verb), x.Term())}
 	case SymStr:
 		if verb == 'x' || verb == 'X' {
-			return SymStr{ex.hexOf(x.T)}
+			if x.B != nil {
+				return hexBytes(x.B, verb == 'X')
+			}
+			return SymStr{T: ex.hexOf(x.T)}
 		}
 		return ex.quoteIf(verb, x)
 	case SymBool:
-		return SymStr{Ite(x.T, SeqOfString("true"), SeqOfString("false"))}
+		return SymStr{T: Ite(x.T, SeqOfString("true"), SeqOfString("false"))}
 	case OpaqueFloat:
-		return SymStr{ex.fresh("fmtfloat", SSeq)}
+		return SymStr{T: ex.fresh("fmtfloat", SSeq)}
 	case Slice:
 		if sl, ok := itf.T.Underlying().(*types.Slice); ok {
 			if b, ok := sl.Elem().Underlying().(*types.Basic); ok && b.Kind() == types.Uint8 {
@@ -458,9 +468,9 @@ func (ex *Exec) fmtOperand(flags string, verb byte, op Value) Value {
 				case 's':
 					return ex.bytesToStr(x)
 				case 'x', 'X':
-					return SymStr{ex.hexOf(ex.seqOfBytes(x))}
+					return hexBytes(x, verb == 'X')
 				}
-				return SymStr{ex.ufStr("fmtbytes_"+string(verb), ex.seqOfBytes(x))}
+				return SymStr{T: ex.ufStr("fmtbytes_"+string(verb), ex.seqOfBytes(x))}
 			}
 		}
 	case Array:
@@ -468,9 +478,9 @@ func (ex *Exec) fmtOperand(flags string, verb byte, op Value) Value {
 			if b, ok := at.Elem().Underlying().(*types.Basic); ok && b.Kind() == types.Uint8 {
 				switch verb {
 				case 'x', 'X':
-					return SymStr{ex.hexOf(ex.seqOfBytes(x))}
+					return hexBytes(x, verb == 'X')
 				}
-				return SymStr{ex.ufStr("fmtbytes_"+string(verb), ex.seqOfBytes(x))}
+				return SymStr{T: ex.ufStr("fmtbytes_"+string(verb), ex.seqOfBytes(x))}
 			}
 		}
 	}
@@ -485,7 +495,7 @@ func (ex *Exec) quoteIf(verb byte, s Value) Value {
 	if cs, ok := s.(string); ok {
 		return strconv.Quote(cs)
 	}
-	return SymStr{SeqConcat(SeqOfString("\""), strTerm(s), SeqOfString("\""))}
+	return SymStr{T: SeqConcat(SeqOfString("\""), strTerm(s), SeqOfString("\""))}
 }
 
 func (ex *Exec) ufStr(name string, arg *Term) *Term {
@@ -520,6 +530,36 @@ func (ex *Exec) itoa(x Int, signed bool) *Term {
 	return res
 }
 
+// hexBytes renders explicit bytes as an explicit lower-case hex string.
+func hexBytes(bs []Value, upper bool) Value {
+	out := make([]Value, 0, 2*len(bs))
+	alpha := uint64(0x57)
+	if upper {
+		alpha = 0x37
+	}
+	nib := func(n *Term) Value {
+		// n: 8-bit term holding a nibble
+		return SInt(Ite(Bin("bvult", SBool, n, BVConst(10, 8)), Bin("bvadd", SBV(8), n, BVConst(0x30, 8)), Bin("bvadd", SBV(8), n, BVConst(alpha, 8))))
+	}
+	const digits = "0123456789abcdef"
+	const udigits = "0123456789ABCDEF"
+	for _, b := range bs {
+		bi := b.(Int)
+		if bi.T == nil {
+			d := digits
+			if upper {
+				d = udigits
+			}
+			out = append(out, CInt(uint64(d[bi.C>>4]), 8), CInt(uint64(d[bi.C&15]), 8))
+			continue
+		}
+		hi := ZeroExt(4, Extract(7, 4, bi.T))
+		lo := ZeroExt(4, Extract(3, 0, bi.T))
+		out = append(out, nib(hi), nib(lo))
+	}
+	return mkStrBytes(out)
+}
+
 func (ex *Exec) hexOf(seq *Term) *Term {
 	f := UF("hex", []Sort{SSeq}, SSeq)
 	res := App(f, SSeq, seq)
@@ -551,11 +591,24 @@ func concatStr(parts []Value) Value {
 		}
 		return sb.String()
 	}
+	var all []Value
+	explicit := true
+	for _, p := range parts {
+		b, ok := strBytesOf(p)
+		if !ok {
+			explicit = false
+			break
+		}
+		all = append(all, b...)
+	}
+	if explicit {
+		return mkStrBytes(all)
+	}
 	ts := make([]*Term, len(parts))
 	for i, p := range parts {
 		ts[i] = strTerm(p)
 	}
-	return SymStr{SeqConcat(ts...)}
+	return SymStr{T: SeqConcat(ts...)}
 }
 
 // sprintf renders format with operands; returns the string and the %w operands.
@@ -926,6 +979,20 @@ func registerStdlib(e *Engine) {
 		return ex.errorsAs(a[0].(Iface), a[1].(Iface))
 	}
 
+	// ----- context -----
+	x["context.WithValue"] = func(ex *Exec, c *frame, f *ssa.Function, a []Value) Value {
+		parent := a[0].(Iface)
+		if parent.T == nil {
+			ex.rtPanic("cannot create context from nil parent")
+		}
+		if a[1].(Iface).T == nil {
+			ex.rtPanic("nil key")
+		}
+		t := ex.eng.ssaPkgs["context"].Type("valueCtx").Object().Type()
+		var cell Value = Struct{parent, a[1], a[2]}
+		return Iface{T: types.NewPointer(t), V: &cell}
+	}
+
 	// ----- fmt -----
 	x["fmt.Sprintf"] = func(ex *Exec, c *frame, f *ssa.Function, a []Value) Value {
 		fs, ok := a[0].(string)
@@ -954,19 +1021,19 @@ func registerStdlib(e *Engine) {
 
 	// ----- strconv -----
 	e.native("strconv.Itoa", strconv.Itoa, func(ex *Exec, c *frame, f *ssa.Function, a []Value) Value {
-		return SymStr{ex.itoa(a[0].(Int), true)}
+		return SymStr{T: ex.itoa(a[0].(Int), true)}
 	})
 	e.native("strconv.FormatUint", strconv.FormatUint, func(ex *Exec, c *frame, f *ssa.Function, a []Value) Value {
 		if b := a[1].(Int); b.T != nil || b.C != 10 {
 			ex.unsupported("FormatUint symbolic with base != 10")
 		}
-		return SymStr{ex.itoa(a[0].(Int), false)}
+		return SymStr{T: ex.itoa(a[0].(Int), false)}
 	})
 	e.native("strconv.FormatInt", strconv.FormatInt, func(ex *Exec, c *frame, f *ssa.Function, a []Value) Value {
 		if b := a[1].(Int); b.T != nil || b.C != 10 {
 			ex.unsupported("FormatInt symbolic with base != 10")
 		}
-		return SymStr{ex.itoa(a[0].(Int), true)}
+		return SymStr{T: ex.itoa(a[0].(Int), true)}
 	})
 	e.native("strconv.ParseUint", strconv.ParseUint, nil)
 	e.native("strconv.ParseInt", strconv.ParseInt, nil)
@@ -977,23 +1044,78 @@ func registerStdlib(e *Engine) {
 
 	// ----- encoding/hex -----
 	e.native("encoding/hex.EncodeToString", hex.EncodeToString, func(ex *Exec, c *frame, f *ssa.Function, a []Value) Value {
-		return SymStr{ex.hexOf(ex.seqOfBytes(a[0].(Slice)))}
+		return hexBytes(a[0].(Slice), false)
 	})
 	e.native("encoding/hex.DecodeString", hex.DecodeString, nil)
+	x["encoding/hex.Encode"] = func(ex *Exec, c *frame, f *ssa.Function, a []Value) Value {
+		dst, src := a[0].(Slice), a[1].(Slice)
+		hb, _ := strBytesOf(hexBytes(src, false))
+		if len(dst) < len(hb) {
+			ex.rtPanic("runtime error: index out of range (hex.Encode)")
+		}
+		copy(dst, hb)
+		return CInt(uint64(len(hb)), 64)
+	}
 
 	// ----- strings / bytes -----
 	e.native("strings.Contains", strings.Contains, func(ex *Exec, c *frame, f *ssa.Function, a []Value) Value {
+		s, sok := strBytesOf(a[0])
+		sub, subok := strBytesOf(a[1])
+		if sok && subok {
+			var acc Value = false
+			for i := 0; i+len(sub) <= len(s); i++ {
+				acc = ex.orVal(acc, ex.bytesEq(s[i:i+len(sub)], sub))
+			}
+			return acc
+		}
 		return mkBool(SeqContains(strTerm(a[0]), strTerm(a[1])))
 	})
 	e.native("strings.HasPrefix", strings.HasPrefix, func(ex *Exec, c *frame, f *ssa.Function, a []Value) Value {
+		s, sok := strBytesOf(a[0])
+		p, pok := strBytesOf(a[1])
+		if sok && pok {
+			if len(p) > len(s) {
+				return false
+			}
+			return ex.bytesEq(s[:len(p)], p)
+		}
 		return mkBool(SeqPrefixOf(strTerm(a[1]), strTerm(a[0])))
 	})
 	e.native("strings.HasSuffix", strings.HasSuffix, func(ex *Exec, c *frame, f *ssa.Function, a []Value) Value {
+		s, sok := strBytesOf(a[0])
+		p, pok := strBytesOf(a[1])
+		if sok && pok {
+			if len(p) > len(s) {
+				return false
+			}
+			return ex.bytesEq(s[len(s)-len(p):], p)
+		}
 		return mkBool(SeqSuffixOf(strTerm(a[1]), strTerm(a[0])))
 	})
 	e.native("strings.TrimSpace", strings.TrimSpace, nil)
-	e.native("strings.ToLower", strings.ToLower, nil)
-	e.native("strings.ToUpper", strings.ToUpper, nil)
+	caseMap := func(upper bool) ExternFn {
+		return func(ex *Exec, c *frame, f *ssa.Function, a []Value) Value {
+			bs, ok := strBytesOf(a[0])
+			if !ok {
+				ex.unsupported("strings.ToUpper/ToLower of unbounded symbolic string")
+			}
+			out := make([]Value, len(bs))
+			for i, b := range bs {
+				t := b.(Int).Term()
+				// ASCII only: bytes >= 0x80 would need UTF-8 decoding
+				if upper {
+					isl := And(Bin("bvuge", SBool, t, BVConst('a', 8)), Bin("bvule", SBool, t, BVConst('z', 8)))
+					out[i] = SInt(Ite(isl, Bin("bvsub", SBV(8), t, BVConst(32, 8)), t))
+				} else {
+					isu := And(Bin("bvuge", SBool, t, BVConst('A', 8)), Bin("bvule", SBool, t, BVConst('Z', 8)))
+					out[i] = SInt(Ite(isu, Bin("bvadd", SBV(8), t, BVConst(32, 8)), t))
+				}
+			}
+			return mkStrBytes(out)
+		}
+	}
+	e.native("strings.ToLower", strings.ToLower, caseMap(false))
+	e.native("strings.ToUpper", strings.ToUpper, caseMap(true))
 	e.native("strings.Index", strings.Index, nil)
 	e.native("strings.IndexByte", strings.IndexByte, nil)
 	e.native("strings.LastIndex", strings.LastIndex, nil)
@@ -1074,11 +1196,31 @@ func registerStdlib(e *Engine) {
 	x["runtime.KeepAlive"] = externNoop
 	x["runtime.SetFinalizer"] = externNoop
 	x["runtime.GC"] = externNoop
+	x["encoding/gob.Register"] = externNoop
+	x["os.Open"] = func(ex *Exec, c *frame, f *ssa.Function, a []Value) Value {
+		// file model: no file exists (caches start empty); see DESIGN C04
+		e := ex.newError("open: no such file or directory (gosx file model)")
+		ex.side["notexist"] = e.(Iface).V
+		return Tuple{(*Value)(nil), e}
+	}
+	x["os.IsNotExist"] = func(ex *Exec, c *frame, f *ssa.Function, a []Value) Value {
+		e := a[0].(Iface)
+		if e.T == nil {
+			return false
+		}
+		p, _ := e.V.(*Value)
+		q, _ := ex.side["notexist"].(*Value)
+		return p != nil && p == q
+	}
+	e.native("path/filepath.Join", filepath.Join, nil)
+	e.native("path/filepath.Dir", filepath.Dir, nil)
+	e.native("path.Clean", path.Clean, nil)
 	x["os.Getenv"] = func(ex *Exec, c *frame, f *ssa.Function, a []Value) Value { return "" }
 	x["os.LookupEnv"] = func(ex *Exec, c *frame, f *ssa.Function, a []Value) Value { return Tuple{"", false} }
 
 	registerTime(e)
 	registerProto(e)
+	registerCrypto(e)
 }
 
 // streaming sha256: hash.Hash object backed by a side-table buffer.
